@@ -466,10 +466,10 @@ mpn_toom42_mul (mp_ptr c, mp_srcptr a, mp_size_t an,
 	  t2[1] = mpn_add_1(t1 + 1 + r2, b + r2, k - r2, t2[1]);
 
   /* compute v1 := (a0+a1+a2+a3)*(b0+b1) in {c2, 2k+1};
-     since v1 < 6*B^(2k), v1 uses only 2k+1 words if GMP_NUMB_BITS >= 3 */
+     since v1 < 8*B^(2k), v1 uses only 2k+1 words if GMP_NUMB_BITS >= 3 */
   TOOM3_MUL_REC (c2, t2 + 2, t1 + 1, k1, trec);
 
-  ASSERT(c2[k+k] < 6);
+  ASSERT(c2[k+k] < 8);
 
   /* {c,2k} {c+2k,2k+1} {c+4k+1,r+r2-1} 
 					v1
